@@ -443,6 +443,11 @@ func (c *Ctx) opsxRun() []*opsVerdict {
 	var all []*opsVerdict
 	var mu sync.Mutex
 	var wg sync.WaitGroup
+	unchanged := map[string]*opsVerdict{}
+	for _, manager := range managers {
+		unchanged[manager] = &opsVerdict{key: fmt.Sprintf("variants.%s#operands-unchanged", manager), pos: c.Pos(c.MustFunc(pkgVariants, "", "New"+manager).Pos())}
+		all = append(all, unchanged[manager])
+	}
 	for _, manager := range managers {
 		for _, op := range methods {
 			manager, op := manager, op
@@ -481,6 +486,9 @@ func (c *Ctx) opsxRun() []*opsVerdict {
 						t2 = "Float"
 					}
 					v.runs++
+					mu.Lock()
+					unchanged[manager].runs++
+					mu.Unlock()
 					outs, convs := h.runOp(op, t1, t2, "x", "y", true)
 					where := fmt.Sprintf("%s.%s(%s x, %s y)", manager, op, t1, t2)
 					if t1 == "Integer" || t1 == "String" {
@@ -498,7 +506,11 @@ func (c *Ctx) opsxRun() []*opsVerdict {
 							}
 						case "panic":
 							if strings.HasPrefix(oc.why, "writes into") {
-								bad("%s %s", where, oc.why)
+								mu.Lock()
+								if u := unchanged[manager]; u.bad == "" {
+									u.bad = where + " " + oc.why
+								}
+								mu.Unlock()
 							} else {
 								bad("%s panics: %s", where, oc.why)
 							}
@@ -878,7 +890,7 @@ func (c *Ctx) opsxRun() []*opsVerdict {
 }
 
 func init() {
-	register(&Rule{ID: "OPS.model", Floor: 42,
+	register(&Rule{ID: "OPS.model", Floor: 44,
 		Doc: "every operator of both managers evaluated abstractly on variants with symbolic payloads: per first-operand type the result tag and host expression over (x, converted y) equal the statement's matrix, the second operand goes through Convert to the first operand's type, value-dependent branches are explored both ways (zero / range guards become error outcomes, boolean cells truth tables), undefined cells end in errors, Null operands follow the Null policy",
 		Run: func(c *Ctx) []*Obligation {
 			o := newObl("OPS.model")
